@@ -3,7 +3,7 @@
    Models: Par/ParDefs.v (parallel.h), Par/Sched.v (legal TBB behaviours),
    Par/UnionFind.v, Par/HashTable.v (lock-free containers). *)
 From Coq Require Import List Arith Bool ZArith Permutation Sorted.
-From MV Require Import Par.Sched Par.ParDefs Par.SortModel Par.ScanModel Par.InstModel Par.ReduceSites Gen.ReduceSites.
+From MV Require Import Par.Sched Par.ParDefs Par.SortModel Par.ScanModel Par.InstModel Par.ReduceSites Gen.ReduceSites Par.Containers.
 Import ListNotations.
 
 (* ---- stable_sort(Par, first, last, comp)  [mergeSort / mergeSortRec / mergeRec]
@@ -142,60 +142,53 @@ Theorem remove_if_spec :
 Proof. intros V d p xs ops HL. exact (remove_if_par_correct d p xs ops HL). Qed.
 Print Assumptions remove_if_spec.
 
-(* unique(Par): REFUTED on the pinned tree for inputs longer than MAX_BUFFER_SIZE
-   (finding unique-chunk-boundary-duplicate): chunks are deduplicated
-   separately.  Witness with MAX_BUFFER_SIZE := 2; replayed on the real code
-   with the real constant 65536 by checks/C13.py. *)
-Theorem unique_refuted_across_chunks :
-  exists (maxbuf : nat) (scheds : list (list scan_op)) (src : list Z),
-    Forall (fun s => exists n, legal_scan n s = true) scheds /\
-    unique_par maxbuf scheds src = Some [7; 7]%Z /\ dedup src = [7]%Z.
-Proof.
-  exists 2, [serial_ops 1; serial_ops 0], [7; 7; 7]%Z.
-  exact (conj (Forall_cons _ (ex_intro _ 1 (proj1 unique_chunk_boundary_counterexample))
-               (Forall_cons _ (ex_intro _ 0 (proj1 (proj2 unique_chunk_boundary_counterexample))) (Forall_nil _)))
-              (proj2 (proj2 unique_chunk_boundary_counterexample))).
-Qed.
-Print Assumptions unique_refuted_across_chunks.
+(* unique(Par) = std::unique (after fix 8dafdd9e: a run of equal values that
+   continues from the previous chunk overwrites the last kept element): for
+   every MAX_BUFFER_SIZE >= 1, every input and every legal schedule of every
+   chunk's parallel_scan *)
+Theorem unique_spec :
+  forall (maxbuf : nat) (scheds : list (list scan_op)) (src : list Z),
+    1 <= maxbuf ->
+    scheds_legal (S (length src)) maxbuf (length src) scheds ->
+    unique_par maxbuf scheds src = Some (dedup src).
+Proof. intros maxbuf scheds src Hm HS. exact (unique_par_correct maxbuf scheds src Hm HS). Qed.
+Print Assumptions unique_spec.
 
-(* ---- reduce / transform_reduce / count_if (Par)
-   Forced hypothesis: init is a right identity of f (the split bodies start
-   from init again) and f associative.  Then every legal reduction tree with
+Example unique_hyps_satisfiable :
+  scheds_legal 4 2 3 [serial_ops 1; serial_ops 0] /\
+  unique_par 2 [serial_ops 1; serial_ops 0] [7; 7; 7]%Z = Some [7]%Z.
+Proof. exact unique_example. Qed.
+
+(* ---- reduce / transform_reduce / count_if (Par)  (after fix fc899df2)
+   Blocks are folded in an optional accumulator and init is applied once: for
+   EVERY init, given only associativity of f, every legal reduction tree with
    every choice of lazily/eagerly split bodies gives the left fold. *)
 Theorem reduce_spec :
   forall (T : Type) (f : T -> T -> T) (xs : list T) (init : T) (grain : nat) (t : rtree),
     (forall a b c, f (f a b) c = f a (f b c)) ->
-    (forall a, f a init = a) ->
     legal_reduce grain (length xs) t = true ->
     reduce_par f xs init t = fold_left f xs init.
-Proof. intros T f xs init grain t Ha Hi HL. exact (reduce_par_correct f Ha xs init grain t Hi HL). Qed.
+Proof. intros T f xs init grain t Ha HL. exact (reduce_par_correct f Ha xs init grain t HL). Qed.
 Print Assumptions reduce_spec.
 
 Example reduce_hyps_satisfiable :
   legal_reduce 1 5 (RNode 2 true RLeaf (RNode 3 false RLeaf RLeaf)) = true /\
-  reduce_par Z.max [3; 9; 2; 7; 1]%Z (-5)%Z (RNode 2 true RLeaf (RNode 3 false RLeaf RLeaf)) = 9%Z.
+  reduce_par Z.add [3; 9; 2; 7; 1]%Z 10%Z (RNode 2 true RLeaf (RNode 3 false RLeaf RLeaf)) = 32%Z.
 Proof. split; reflexivity. Qed.
 
-(* F7 (finding reduce-nonidentity-init): without the identity hypothesis the
-   template is NOT std::reduce: init is folded in once per split body *)
-Theorem reduce_refuted_without_identity :
-  exists (xs : list Z) (init : Z) (grain : nat) (t : rtree),
-    legal_reduce grain (length xs) t = true /\
-    reduce_par Z.add xs init t <> fold_left Z.add xs init.
-Proof.
-  exists [1; 1]%Z, 10%Z, 1, (RNode 1 true RLeaf RLeaf).
-  exact (conj (proj1 reduce_nonidentity_counterexample)
-              (fun E : reduce_par Z.add [1; 1]%Z 10%Z (RNode 1 true RLeaf RLeaf) = fold_left Z.add [1; 1]%Z 10%Z =>
-                 Z.lt_irrefl 12 (eq_ind 22%Z (fun z => (12 < z)%Z) eq_refl 12%Z
-                    (eq_trans (eq_sym (proj1 (proj2 reduce_nonidentity_counterexample)))
-                              (eq_trans E (proj2 (proj2 reduce_nonidentity_counterexample))))))).
-Qed.
-Print Assumptions reduce_refuted_without_identity.
+(* historical (finding F7, fixed by fc899df2): the previous body re-seeded every
+   split body with init; about the OLD body only *)
+Example reduce_before_fix_readded_init :
+  reduce_par_before_fix Z.add [1; 1]%Z 10%Z (RNode 1 true RLeaf RLeaf) = 22%Z /\
+  reduce_par Z.add [1; 1]%Z 10%Z (RNode 1 true RLeaf RLeaf) = 12%Z.
+Proof. split; reflexivity. Qed.
 
 (* every in-tree caller of reduce / transform_reduce (table regenerated from the
    sources by translate/c13_sites.py on every run) passes the identity of its
-   operation as init, so the finding above does not reach a public result today;
-   a new caller with another init breaks this obligation *)
+   operation as init.  Since fix fc899df2 this is no longer needed for
+   correctness (reduce_spec holds for every init); it is kept as a tie: the
+   sequential and the parallel branch then also agree for non-associative
+   floating point roundings of `f init x`. *)
 Theorem reduce_sites_pass_identities :
   forallb (fun s => site_ok (snd (fst s)) (snd s)) reduce_sites = true.
 Proof. exact (eq_refl true). Qed.
@@ -241,4 +234,21 @@ Example for_each_hyps_satisfiable :
                5 (Node 2 Leaf (Node 4 Leaf Leaf), [2; 0; 1]) (fun _ => 0%Z)) (seq 0 5)
   = [40; 30; 20; 10; 0]%Z.
 Proof. split; reflexivity. Qed.
+
+(* ---- DisjointSets (src/disjoint_sets.h), PARTIAL.
+   Every successful compare-exchange of unite/findImpl, by any thread at any
+   time (link under the (rank, smaller id) rule, path halving, rank bump),
+   preserves: each non-root's parent is strictly greater in the order
+   (rank, then smaller id) — hence parent chains cannot cycle, for every
+   interleaving of any number of threads.  Missing (exercised by real threads
+   in harness/c13_uf.cpp only): the side conditions of uf_step from stale
+   thread-local reads (rank monotonicity history), the final partition =
+   equivalence closure, and HashTableD::Insert. *)
+Theorem uf_partition_partial :
+  forall st st' : uf_state, ord_inv st -> uf_step st st' -> ord_inv st'.
+Proof. exact uf_step_preserves_order. Qed.
+Print Assumptions uf_partition_partial.
+
+Example uf_hyps_satisfiable : ord_inv (map (fun i => (0, i)) (seq 0 5)).
+Proof. exact (ord_inv_init 5). Qed.
 
